@@ -606,6 +606,62 @@ Proof.
     destruct (worker ny nx seg raw warns l) as [p w]. apply merge_one_inv; assumption.
 Qed.
 
+
+(* ---- per-source independence: what the loop leaves on the pixels of a label l is
+   determined by the worker result for l alone (up to the additive label offset) ---- *)
+Lemma merge_other s a y x : islabel a -> sg y x <> a ->
+  out (merge_one ny nx seg s (a, worker ny nx seg raw warns a)) y x = out s y x.
+Proof.
+  intros Ha Hne. pose proof (worker_good a Ha) as Hg.
+  destruct (worker ny nx seg raw warns a) as [p w]. cbn [fst] in Hg. destruct p as [| |child].
+  1,2: (match goal with |- out (merge_one _ _ _ _ (_, (?p, _))) _ _ = _ =>
+          destruct (merge_one_skip s a p w) as [Eo _] end; [intros c; discriminate|]; rewrite Eo; reflexivity).
+  assert (Ha0 : a <> 0) by (apply islabel_spec in Ha; tauto).
+  rewrite (out_merge s a child w y x Ha0 Hg).
+  apply Nat.eqb_neq in Hne. rewrite Hne. reflexivity.
+Qed.
+
+Lemma serial_shape labels l : forall s0 s, Forall islabel labels ->
+  serial ny nx seg raw warns labels s0 = Some s ->
+  match fst (worker ny nx seg raw warns l) with
+  | PSome child =>
+      (In l labels \/ exists ml, forall y x, sg y x = l ->
+           out s0 y x = child (cy (slice_of l) y) (cx (slice_of l) x) + ml) ->
+      exists ml, forall y x, sg y x = l ->
+           out s y x = child (cy (slice_of l) y) (cx (slice_of l) x) + ml
+  | _ => forall y x, sg y x = l -> out s y x = out s0 y x
+  end.
+Proof.
+  induction labels as [|a r IH]; intros s0 s Hall E.
+  - inversion E; subst. destruct (fst (worker ny nx seg raw warns l)); auto.
+    intros [[]|H]; exact H.
+  - inversion Hall as [|? ? Ha Hr]; subst. rewrite serial_cons in E.
+    destruct (is_fail (fst (worker ny nx seg raw warns a))) eqn:Ef; [discriminate|].
+    specialize (IH _ s Hr E).
+    destruct (Nat.eq_dec a l) as [->|Hal].
+    + (* the label itself is merged *)
+      pose proof (worker_good l Ha) as Hg.
+      destruct (worker ny nx seg raw warns l) as [p w] eqn:Ew. cbn [fst] in *.
+      destruct p as [| |child].
+      * cbn in Ef. discriminate.
+      * intros y x Hs. rewrite (IH y x Hs).
+        destruct (merge_one_skip s0 l PNone w) as [Eo _]; [intros c; discriminate|]. rewrite Eo. reflexivity.
+      * intros _. apply IH. right. exists (maxlab s0). intros y x Hs.
+        assert (Hl0 : l <> 0) by (apply islabel_spec in Ha; tauto).
+        rewrite (out_merge s0 l child w y x Hl0 Hg).
+        apply Nat.eqb_eq in Hs. rewrite Hs. reflexivity.
+    + (* another label: the pixels of l are not touched *)
+      assert (Hkeep : forall y x, sg y x = l ->
+                out (merge_one ny nx seg s0 (a, worker ny nx seg raw warns a)) y x = out s0 y x).
+      { intros y x Hs. apply merge_other; [exact Ha|congruence]. }
+      destruct (fst (worker ny nx seg raw warns l)) as [| |child].
+      * intros y x Hs. rewrite (IH y x Hs). apply Hkeep, Hs.
+      * intros y x Hs. rewrite (IH y x Hs). apply Hkeep, Hs.
+      * intros [[Hin|Hin]|[ml Hml]].
+        -- contradiction.
+        -- apply IH. left. exact Hin.
+        -- apply IH. right. exists ml. intros y x Hs. rewrite (Hkeep y x Hs). apply Hml, Hs.
+Qed.
 End Serial.
 
 (* ------------------------------------------------------------------ *)
@@ -1076,6 +1132,29 @@ Proof.
   - destruct (serial _ _ _ _ _ _ _) as [s|]; [apply F|discriminate].
   - destruct (parallel _ _ _ _ _ _ _ _) as [| |s]; [discriminate|discriminate|apply F].
 Qed.
+
+(* relabel=False: the returned array is the state of the (serial) loop *)
+Lemma deblend_serial_state inmap npix labels_arg nlevels cn cd mode_ok dtmax nproc order r labels :
+  deblend_sources ny nx seg raw warns inmap npix labels_arg nlevels (cn, cd) mode_ok false dtmax nproc order = Ok r ->
+  cn <> cd -> valid_schedule npix labels_arg order ->
+  selected ny nx seg npix labels_arg = Some labels ->
+  exists s, serial ny nx seg raw warns labels (init_st ny nx seg) = Some s /\
+            forall y x, y < ny -> x < nx -> at2 (r_data r) y x = out s y x.
+Proof.
+  intros E Hc HV Es. rewrite (schedule_independent_lemma _ _ _ _ _ _ _ _ _ _ HV) in E.
+  unfold deblend_sources in E.
+  destruct (nlevels <? 1)%Z; [discriminate|].
+  destruct ((cn <? 0)%Z || (cd <? cn)%Z); [discriminate|].
+  destruct (cn =? cd)%Z eqn:Ecc; [apply Z.eqb_eq in Ecc; contradiction|].
+  destruct (negb mode_ok); [discriminate|].
+  rewrite Es in E. cbn [Nat.eqb] in E.
+  change {| out := sg; dmap := []; maxlab := maxl (segvals ny nx seg); npm := []; nmk := [] |}
+    with (init_st ny nx seg) in E.
+  destruct (serial ny nx seg raw warns labels (init_st ny nx seg)) as [s|]; [|discriminate].
+  exists s. split; [reflexivity|]. unfold finish in E.
+  destruct (match dtmax with Some m => (m <? Z.of_nat (maxlab s))%Z | None => false end); [discriminate|].
+  inversion E. cbn [r_data]. intros y x Hy Hx. apply at2_tabulate; assumption.
+Qed.
 End Top.
 
 (* ------------------------------------------------------------------ *)
@@ -1208,4 +1287,38 @@ Lemma per_source_lemma : forall ny nx seg l r child,
 Proof.
   intros ny nx seg l r child Hl E. pose proof (post_good ny nx seg l r Hl) as H.
   rewrite E in H. exact H.
+Qed.
+
+(* per-source independence (relabel=False): two calls on the same segmentation whose watershed
+   stage returned the same array for parent l give l's pixels the same child pattern, up to the
+   additive label offset — whatever the other labels, their order, their results, nproc and the
+   completion orders *)
+Lemma per_source_independent_lemma :
+  forall ny nx seg l npix
+         raw warns inmap labels_arg nlevels cn cd mode_ok dtmax nproc order r labels
+         raw' warns' inmap' labels_arg' nlevels' cn' cd' mode_ok' dtmax' nproc' order' r' labels',
+  deblend_sources ny nx seg raw warns inmap npix labels_arg nlevels (cn, cd) mode_ok false dtmax nproc order = Ok r ->
+  deblend_sources ny nx seg raw' warns' inmap' npix labels_arg' nlevels' (cn', cd') mode_ok' false dtmax' nproc' order' = Ok r' ->
+  cn <> cd -> cn' <> cd' ->
+  valid_schedule ny nx seg npix labels_arg order -> valid_schedule ny nx seg npix labels_arg' order' ->
+  selected ny nx seg npix labels_arg = Some labels -> selected ny nx seg npix labels_arg' = Some labels' ->
+  In l labels -> In l labels' -> raw l = raw' l ->
+  exists k k', forall y x, y < ny -> x < nx -> at2 seg y x = l ->
+    at2 (r_data r) y x + k' = at2 (r_data r') y x + k.
+Proof.
+  intros ny nx seg l npix raw warns inmap labels_arg nlevels cn cd mode_ok dtmax nproc order r labels
+         raw' warns' inmap' labels_arg' nlevels' cn' cd' mode_ok' dtmax' nproc' order' r' labels'
+         E E' Hc Hc' HV HV' Es Es' Hin Hin' Hraw.
+  destruct (deblend_serial_state _ _ _ _ _ _ _ _ _ _ _ _ _ _ _ _ _ E Hc HV Es) as [s [Hser Hout]].
+  destruct (deblend_serial_state _ _ _ _ _ _ _ _ _ _ _ _ _ _ _ _ _ E' Hc' HV' Es') as [s' [Hser' Hout']].
+  pose proof (serial_shape ny nx seg raw warns labels l _ _ (selected_islabel _ _ _ _ _ _ Es) Hser) as H.
+  pose proof (serial_shape ny nx seg raw' warns' labels' l _ _ (selected_islabel _ _ _ _ _ _ Es') Hser') as H'.
+  assert (Ew : fst (worker ny nx seg raw' warns' l) = fst (worker ny nx seg raw warns l))
+    by (unfold worker; cbn [fst]; rewrite Hraw; reflexivity).
+  rewrite Ew in H'. destruct (fst (worker ny nx seg raw warns l)) as [| |child].
+  1,2: (exists 0, 0; intros y x Hy Hx Hl; rewrite (Hout y x Hy Hx), (Hout' y x Hy Hx);
+        rewrite <- (sg_in ny nx seg y x Hy Hx) in Hl; rewrite (H y x Hl), (H' y x Hl); reflexivity).
+  destruct (H (or_introl Hin)) as [ml Hml]. destruct (H' (or_introl Hin')) as [ml' Hml'].
+  exists ml, ml'. intros y x Hy Hx Hl. rewrite (Hout y x Hy Hx), (Hout' y x Hy Hx).
+  rewrite <- (sg_in ny nx seg y x Hy Hx) in Hl. rewrite (Hml y x Hl), (Hml' y x Hl). lia.
 Qed.
